@@ -1,2 +1,107 @@
-/- C09 — theorems under construction -/
-import MPilot.Model.Eems
+/-
+C09 — computed results are immutable: commands never modify their inputs.
+
+In the pure model `exec` inputs cannot change by construction; the content of this property is therefore carried by
+(1) the heap model `execH`, which makes the two identity-relevant behaviours of the bodies explicit (aliasing of a single
+input, the in-place clamp), and (2) the correspondence, which snapshots every live array before/after every real `execute`.
+-/
+import MPilot.Props.C04
+import MPilot.Props.C06
+import MPilot.Model.EemsHeap
+
+namespace MPilot.C09
+open MPilot
+
+/-- single-input Minimum/Maximum return their input unchanged -/
+theorem naryFold_single (ref : LineRef) (g : Rat → Rat → Rat) (a : Arr) : naryFold ref g [a] = .ok a := by
+  simp only [naryFold, validateShapes, promoteAll, List.foldl_cons, List.foldl_nil, foldArr, bind, Except.bind]
+  cases a with
+  | mk dt sh cs => cases dt <;> rfl
+
+/-- **C09, one step.** Executing any data command on objects of the heap leaves every existing object visibly unchanged
+(shape, element type, missing cells, non-missing values), provided the inputs of the fuzzy pair are fuzzy values —
+which C04 guarantees for every fuzzy result a program can produce. -/
+theorem execH_preserves (sqrt : Rat → Rat) (c : DataCmd) (ids : List ObjId) (h h' : Heap) (rid : ObjId)
+    (hfz : (c = .fuzzyOr ∨ c = .fuzzyAnd) → ∀ id : ObjId, id ∈ ids → ∀ a, h[id]? = some a → C04.InFuzzyRange a)
+    (hx : execH sqrt c ids h = .ok (rid, h')) :
+    ∀ (id : ObjId) (a : Arr), h[id]? = some a → ∃ a', h'[id]? = some a' ∧ ArrR a' a := by
+  intro j a hj
+  unfold execH at hx
+  split at hx
+  · exact absurd hx (eRaw_ne_ok _ _)
+  · rename_i xs hxs
+    split at hx
+    · cases hx
+    · rename_i r hr
+      split at hx
+      · rename_i hal
+        split at hx
+        · rename_i id
+          injection hx with hx; injection hx with h1 h2; subst h2
+          have hxs' : h[id]? = some (xs.headD default) ∧ xs = [xs.headD default] := by
+            simp only [List.mapM_cons, List.mapM_nil] at hxs
+            cases hid : h[id]? with
+            | none => simp [hid] at hxs
+            | some b => simp [hid] at hxs; subst hxs; simp
+          by_cases hji : j = id
+          · subst hji
+            have hlt : j < h.length := by
+              have := hj; rw [List.getElem?_eq_some_iff] at this; exact this.1
+            refine ⟨r, by simp [List.getElem?_set, hlt], ?_⟩
+            have hb : a = xs.headD default := by rw [hxs'.1] at hj; injection hj with hj; exact hj.symm
+            rw [hxs'.2, ← hb] at hr
+            -- which aliasing command?
+            simp only [aliases, List.length_cons, List.length_nil, beq_self_eq_true, Bool.true_and] at hal
+            cases c <;> simp at hal
+            · simp only [exec] at hr; rw [naryFold_single] at hr; injection hr with hr; subst hr; exact ArrR.refl _
+            · simp only [exec] at hr; rw [naryFold_single] at hr; injection hr with hr; subst hr; exact ArrR.refl _
+            · simp only [exec, naryFold_single, fuzzyClamp, Except.map, Except.ok.injEq] at hr
+              subst hr
+              exact C06.insure_inrange a (hfz (Or.inl rfl) j (List.mem_cons_self ..) a hj)
+            · simp only [exec, naryFold_single, fuzzyClamp, Except.map, Except.ok.injEq] at hr
+              subst hr
+              exact C06.insure_inrange a (hfz (Or.inr rfl) j (List.mem_cons_self ..) a hj)
+          · refine ⟨a, ?_, ArrR.refl a⟩
+            rw [List.getElem?_set_ne (Ne.symm hji)]; exact hj
+        · exact absurd hx (eRaw_ne_ok _ _)
+      · injection hx with hx; injection hx with h1 h2; subst h2
+        refine ⟨a, ?_, ArrR.refl a⟩
+        have hlt : j < h.length := by
+          have := hj; rw [List.getElem?_eq_some_iff] at this; exact this.1
+        rw [List.getElem?_append_left hlt]; exact hj
+
+/-- the result object of the heap semantics is what the pure semantics computes: `execH` refines `exec` -/
+theorem execH_refines (sqrt : Rat → Rat) (c : DataCmd) (ids : List ObjId) (h h' : Heap) (rid : ObjId) (xs : List Arr)
+    (hxs : ids.mapM (fun id => h[id]?) = some xs) (hx : execH sqrt c ids h = .ok (rid, h')) :
+    ∃ r, exec sqrt c xs = .ok r ∧ h'[rid]? = some r := by
+  unfold execH at hx
+  rw [hxs] at hx
+  simp only at hx
+  cases hr : exec sqrt c xs with
+  | error e => rw [hr] at hx; cases hx
+  | ok r =>
+    rw [hr] at hx
+    simp only at hx
+    refine ⟨r, rfl, ?_⟩
+    by_cases hal : aliases c ids.length = true
+    · rw [if_pos hal] at hx
+      match ids, hxs, hx with
+      | [id], hxs, hx =>
+        injection hx with hx; injection hx with h1 h2; subst h1; subst h2
+        have : id < h.length := by
+          simp only [List.mapM_cons, List.mapM_nil] at hxs
+          cases hid : h[id]? with
+          | none => simp [hid] at hxs
+          | some b => rw [List.getElem?_eq_some_iff] at hid; exact hid.1
+        simp [List.getElem?_set, this]
+      | [], _, hx => exact absurd hx (eRaw_ne_ok _ _)
+      | _ :: _ :: _, _, hx => exact absurd hx (eRaw_ne_ok _ _)
+    · rw [if_neg hal] at hx
+      injection hx with hx; injection hx with h1 h2; subst h1; subst h2
+      simp
+
+/-- non-vacuity: single-input FuzzyOr on an in-range object returns the same object id, heap visibly unchanged -/
+example : execH (fun x => x) .fuzzyOr [0] [⟨.float, [2], [⟨1/2, false⟩, ⟨7, true⟩]⟩] =
+    .ok (0, [⟨.float, [2], [⟨1/2, false⟩, ⟨fillValue, true⟩]⟩]) := by decide +kernel
+
+end MPilot.C09
